@@ -354,7 +354,32 @@ def run(ctx):
     reader = repo.func("html5parser.py", "InHeadPhase.startTagMeta")
     rtests = [n for n in ast.walk(reader.node) if isinstance(n, ast.Compare) and len(n.ops) == 1 and isinstance(n.ops[0], ast.Eq)
               and isinstance(n.comparators[0], ast.Constant) and n.comparators[0].value == "content-type"]
-    r.idiom("R15.2", len(rtests) == 1 and insens(rtests[0].left) and "'http-equiv'" in norm(rtests[0].left), "reader-is-case-insensitive", reader.where,
+    # (when the reader is not written as one comparison, C06.7 decides its case-insensitivity by running it: pragma-mixed-case)
+    from .c06 import late_meta_evaluated
+    reader_evaluated = False
+    if not (len(rtests) == 1):
+        class _Quiet:
+            failed = []
+
+            def check(self, rid, cond, key, *a, **k):
+                if not cond and "pragma-mixed-case" in key and "tentative" in key:
+                    self.failed.append(key)
+                return cond
+
+            def __getattr__(self, _):
+                return lambda *a, **k: True
+        q = _Quiet()
+        q.failed = []
+        qctx = type("Q", (), {"r": q, "ce": ctx.ce, "repo": ctx.repo})()
+        mixed = [("pragma-mixed-case", {"http-equiv": "Content-Type", "content": "text/html; charset=x"}, True)]
+        reader_evaluated = late_meta_evaluated(qctx, reader, mixed)
+        if reader_evaluated and q.failed:
+            r.bad("R15.2", "reader-is-case-insensitive", reader.where,
+                  "the tree builder's <meta> handler does not recognise `http-equiv=Content-Type` (mixed case) as an encoding declaration (decided by "
+                  "running it): the declaration the serializer's filter writes or keeps is not honoured by the reading side")
+            reader_evaluated = None
+    if reader_evaluated is not None:
+        r.idiom("R15.2", reader_evaluated or len(rtests) == 1 and insens(rtests[0].left) and "'http-equiv'" in norm(rtests[0].left), "reader-is-case-insensitive", reader.where,
             "the reading side's http-equiv test was not recognised (writer/reader agreement basis changed)",
             wrong=[(len(rtests) == 1 and not insens(rtests[0].left), "the reading side no longer lower-cases the http-equiv value: the "
                     "writer recognises `Content-Type`, the reader does not (judged by C06.7)")])
